@@ -16,6 +16,8 @@ pub fn i64_interesting() -> BoxedStrategy<i64> {
             if n { v.wrapping_neg() } else { v }
         }),
         1 => (any::<i32>(), any::<u32>()).prop_map(|(s, f)| ((s as i64) << 32) | f as i64),
+        // sub-second and few-second values of either sign (fraction handling)
+        2 => (-4i64..4, any::<u32>()).prop_map(|(s, f)| (s << 32) | f as i64),
     ]
     .boxed()
 }
